@@ -108,7 +108,7 @@ func (e *Exec) fmtArg(verb byte, a value) []Int {
 		}
 	case SStr:
 		if verb == 's' || verb == 'v' {
-			return x.B
+			return strBytes(x)
 		}
 		if verb == 'q' {
 			return []Int{e.opaqueUnk()}
